@@ -71,6 +71,7 @@ pub const TEMPLATES: &[&str] = &[
     "clean-preprocessor",
     "clean-preprocessor-flip",
     "clean-single",
+    "clean-unless-defined",
     "clean-inheritance-cross-file",
     "clean-alias-chain",
     "clean-forward-refs",
@@ -189,6 +190,11 @@ pub fn instantiate(template: &'static str, rng: &mut Rng) -> Program {
             p.files.push(f("w3.slice", format!("module Spread{u}::Three\n\nstruct Use3 {{ a: Spread{u}::Old1 }}\n/// {{@link Missing2}}\nstruct D3 {{}}\n\n{}", filler(rng, "Three", fill))));
             p.class = Class::WarnOnly(6);
             p.lints = vec!["Deprecated", "Deprecated", "Deprecated", "Deprecated", "BrokenDocLink", "BrokenDocLink"];
+        }
+        "clean-unless-defined" => {
+            // clean as it stands; with `-D BREAKIT` on the command line a block with an unresolved type is switched on
+            p.files.push(f("cond.slice", format!("module Cond{u}\n\nstruct Always {{ a: int32 }}\n#if BREAKIT\nstruct Broken {{ b: NoSuchType }}\n#endif\n#if !BREAKIT && SOMESYMBOL\nstruct OnlyWithSome {{ c: Always }}\n#endif\n")));
+            p.files.push(f("cond2.slice", format!("module Cond{u}::More\n\nstruct Uses {{ a: Cond{u}::Always }}\n\n{}", filler(rng, "More", fill))));
         }
         "clean-inheritance-cross-file" => {
             p.files.push(f("base.slice", format!("module Svc{u}\n\ninterface Base {{\n    ping()\n    idempotent name() -> string\n}}\n")));
